@@ -396,6 +396,63 @@ func sliceSeq(f *ssa.Function, v ssa.Value, isRecv, isArg func(ssa.Value) bool, 
 		if n, ok := constInt(x.Len); ok && n == 0 {
 			return nil, true
 		}
+		// make([]T, len(a)+len(b)) filled by copy(x, a) and copy(x[len(a):], b)
+		if sum, ok := x.Len.(*ssa.BinOp); ok && sum.Op == token.ADD {
+			lenOf := func(v ssa.Value) ssa.Value {
+				if lc, ok := v.(*ssa.Call); ok && builtinName(&lc.Call) == "len" {
+					return lc.Call.Args[0]
+				}
+				return nil
+			}
+			a, b := lenOf(sum.X), lenOf(sum.Y)
+			if a != nil && b != nil {
+				var first, second ssa.Value
+				for _, ref := range referrersOf(x) {
+					switch c := ref.(type) {
+					case *ssa.Call:
+						if builtinName(&c.Call) == "copy" && c.Call.Args[0] == ssa.Value(x) {
+							first = c.Call.Args[1]
+						}
+					case *ssa.Slice:
+						if c.X == ssa.Value(x) && c.Low == nil {
+							// copy(x[:n], a)
+							for _, r2 := range referrersOf(c) {
+								if cc, ok := r2.(*ssa.Call); ok && builtinName(&cc.Call) == "copy" && cc.Call.Args[0] == ssa.Value(c) {
+									first = cc.Call.Args[1]
+								}
+							}
+						}
+						if c.X == ssa.Value(x) && c.Low != nil && c.High == nil {
+							for _, r2 := range referrersOf(c) {
+								if cc, ok := r2.(*ssa.Call); ok && builtinName(&cc.Call) == "copy" && cc.Call.Args[0] == ssa.Value(c) {
+									// offset must be len(first source)
+									if off := lenOf(c.Low); off != nil {
+										second = cc.Call.Args[1]
+										_ = off
+									}
+								}
+							}
+						}
+					}
+				}
+				if first != nil && second != nil {
+					var offOK bool
+					for _, ref := range referrersOf(x) {
+						if sl, ok := ref.(*ssa.Slice); ok && sl.Low != nil {
+							if off := lenOf(sl.Low); off != nil && sameValue(off, first) {
+								offOK = true
+							}
+						}
+					}
+					okLens := (sameValue(a, first) && sameValue(b, second)) || (sameValue(b, first) && sameValue(a, second))
+					if offOK && okLens {
+						s1, _ := sliceSeq(f, first, isRecv, isArg, depth+1)
+						s2, _ := sliceSeq(f, second, isRecv, isArg, depth+1)
+						return append(append([]string{}, s1...), s2...), true
+					}
+				}
+			}
+		}
 		// contents come from copy(x, src) with len(x) == len(src)
 		var seq []string
 		found := false
